@@ -86,6 +86,8 @@ func genQueryStmt(r *Rng, idx int, bad bool) qstmt {
 		"unknown-set-column":       ":exec\n" + indent + "UPDATE authors\nSET nope = $1\nWHERE id = $2",
 		"insert-arity":             ":exec\n" + indent + "INSERT INTO authors\n  (id, name)\nVALUES\n  ($1)",
 		"unknown-sqlc-function":    ":many\n" + indent + "SELECT id\nFROM authors\nWHERE id = sqlc.nope(1)",
+		"function-arity":          ":many\n" + indent + "SELECT id,\n  random(2)\nFROM authors",
+		"function-arity-where":    ":many\n" + indent + "SELECT id\nFROM authors\nWHERE id = random(1, 2)",
 		"too-many-parts":           ":many\n" + indent + "SELECT id\nFROM authors\nWHERE a.b.c.id = $1",
 		"unknown-returning":        ":one\n" + indent + "DELETE FROM authors\nWHERE id = $1\nRETURNING nope",
 		"unknown-join-table":       ":many\n" + indent + "SELECT authors.id\nFROM authors\nJOIN nowhere n ON n.id = authors.id",
